@@ -1680,8 +1680,10 @@ func (r *aeRun) evalCall(fr *frame, c *ssa.Call) any {
 		return r.callRepo(fn, args, c)
 	}
 	switch name {
-	case "strings.Compare":
+	case "strings.Compare", "cmp.Compare":
 		return intC(int64(r.cmp3(args[0], args[1])))
+	case "cmp.Less":
+		return boolC(r.cmp3(args[0], args[1]) < 0)
 	case "(time.Time).Compare":
 		a, ok1 := args[0].(avRef)
 		b, ok2 := args[1].(avRef)
